@@ -71,7 +71,19 @@ def fbits(x):
 
 
 def pyval(v):
-    """an attribute value as the driver reads it (by exact Python type)"""
+    """an attribute value as the driver reads it: by Python type, an instance of a subclass of int / str / float /
+    bytes (IntEnum, str-Enum, ...) is the scalar it is"""
+    if type(v) not in (bool, str, int, float, bytes) and not isinstance(v, (tuple, list, dict)) and v is not None:
+        if isinstance(v, bool):
+            return {'t': 'bool', 'v': bool(v)}
+        if isinstance(v, int):
+            return {'t': 'int', 'v': int.__index__(v)}
+        if isinstance(v, str):
+            return {'t': 'str', 'v': T(str.__getitem__(v, slice(None)))}
+        if isinstance(v, float):
+            return {'t': 'float', 'v': fbits(float.__float__(v))}
+        if isinstance(v, bytes):
+            return {'t': 'bytes', 'v': list(v)}
     if v is None:
         return {'t': 'none'}
     if type(v) is bool:
@@ -372,6 +384,46 @@ def mat(spec, top):
     raise ValueError(k)
 
 
+import enum as _enum
+import http as _http
+
+
+class Color(str, _enum.Enum):
+    RED = 'red'
+    EMPTY = ''
+    UNI = 'é😀'
+
+
+class Level(_enum.StrEnum):
+    HIGH = 'high'
+
+
+class Prio(_enum.IntEnum):
+    LOW = -3
+    TOP = 2 ** 40
+
+
+class Ratio(float):
+    pass
+
+
+class Label(str):
+    pass
+
+
+class Count(int):
+    pass
+
+
+SUBCLASS_VALUES = {
+    'HTTPStatus.OK': lambda: _http.HTTPStatus.OK, 'HTTPStatus.NOT_FOUND': lambda: _http.HTTPStatus.NOT_FOUND,
+    'Color.RED': lambda: Color.RED, 'Color.EMPTY': lambda: Color.EMPTY, 'Color.UNI': lambda: Color.UNI,
+    'Level.HIGH': lambda: Level.HIGH, 'Prio.LOW': lambda: Prio.LOW, 'Prio.TOP': lambda: Prio.TOP,
+    'Ratio(0.25)': lambda: Ratio(0.25), 'Ratio(inf)': lambda: Ratio('inf'), 'Label(tag é)': lambda: Label('tag é'),
+    'Count(7)': lambda: Count(7), 'Count(-1)': lambda: Count(-1),
+}
+
+
 def mat_attr(v):
     """attribute specs are plain JSON: lists stay lists (BoundedAttributes freezes them), {'tuple': [...]} a tuple,
     {'bytes': [...]} bytes, {'float': 'nan'} special floats"""
@@ -382,6 +434,8 @@ def mat_attr(v):
             return bytes(v['bytes'])
         if 'float' in v:
             return {'nan': math.nan, 'inf': math.inf, '-inf': -math.inf}[v['float']]
+        if 'sub' in v:
+            return SUBCLASS_VALUES[v['sub']]()          # an instance of a SUBCLASS of int / str / float
     if isinstance(v, list):
         return [mat_attr(x) for x in v]
     return v
@@ -563,7 +617,7 @@ class FakeChannel:
             from deepproto.proto.poll.v1.poll_pb2 import PollResponse, ResponseType
             from deepproto.proto.tracepoint.v1.tracepoint_pb2 import SnapshotResponse
             data = request_serializer(request) if request_serializer else request.SerializeToString()
-            self.rec.append({'path': path, 'request': request, 'bytes': len(data),
+            self.rec.append({'path': path, 'request': request, 'bytes': len(data), 'data': data,
                              'metadata': ([list(kv) for kv in kwargs['metadata']] if 'metadata' in kwargs
                                           and kwargs['metadata'] is not None else None),
                              'has_metadata_kw': 'metadata' in kwargs})
@@ -716,8 +770,98 @@ def run_auth(case):
     return {'wire': out, 'stored_resource': [[T(k), pyval(v)] for k, v in config.resource.attributes.items()]}
 
 
+class GatedList(list):
+    """a list whose FIRST iteration reports that it started and waits until released (parks a conversion half way
+    without touching agent code)"""
+
+    def __init__(self, items):
+        super().__init__(items)
+        self.entered = threading.Event()
+        self.release = threading.Event()
+        self.used = False
+
+    def __iter__(self):
+        if not self.used:
+            self.used = True
+            self.entered.set()
+            self.release.wait(30)
+        return super().__iter__()
+
+
+def rich_snapshot(spec):
+    """a real EventSnapshot with content of its own in every section (frames, table, watches, attributes, resource,
+    log message), so a message assembled from two snapshots cannot go unnoticed"""
+    from deep.api.tracepoint import EventSnapshot, TracePointConfig, StackFrame, Variable, VariableId, WatchResult
+    from deep.api.resource import Resource
+    tag, n = spec['tag'], spec['n_vars']
+    lookup, frame_vars = {}, []
+    for i in range(1, n + 1):
+        children = [VariableId(str(i + 1), 'child_' + tag, ['private'], 'orig_' + tag)] if i < n else []
+        lookup[str(i)] = Variable('type_' + tag, 'value %s %d' % (tag, i), 'hash-%s-%d' % (tag, i), children, i % 2 == 0)
+        frame_vars.append(VariableId(str(i), 'var_%s_%d' % (tag, i)))
+    frames = [StackFrame('/app/%s.py' % tag, '%s.py' % tag, 'method_' + tag, 10 + n, frame_vars, 'Class' + tag,
+                         app_frame=True)]
+    for j in range(spec.get('n_frames', 1)):
+        frames.append(StackFrame('/lib/caller_%s_%d.py' % (tag, j), 'caller_%s.py' % tag, 'caller_' + tag, 90 + j, [], None))
+    s = EventSnapshot(TracePointConfig('tp-' + tag, '%s.py' % tag, 10 + n, {'fire_count': str(n), 'tag': tag},
+                                       ['w_' + tag], []), spec['ts'],
+                      Resource({k: mat_attr(v) for k, v in spec['resource']}), frames, lookup)
+    s.add_watch_result(WatchResult('WATCH', 'w_' + tag, VariableId('1', 'w_' + tag)))
+    if spec.get('error_watch'):
+        s.add_watch_result(WatchResult('LOG', 'bad_' + tag, None, spec['error_watch'] if spec['error_watch'] != '-' else ''))
+    for k, v in spec['attrs']:
+        s.attributes[k] = mat_attr(v)
+    if spec.get('log'):
+        s.log_msg = '[deep] ' + spec['log']
+    s.complete()
+    return s
+
+
+def run_uploads(case):
+    """PushService.push_snapshot -> real 2-worker TaskHandler -> _push_task, two uploads converting at once"""
+    from deep.config import ConfigService
+    from deep.config.tracepoint_config import TracepointConfigService
+    from deep.grpc import GRPCService
+    from deep.push.push_service import PushService
+    from deep.task import TaskHandler
+    from deepproto.proto.tracepoint.v1.tracepoint_pb2 import Snapshot
+    config = ConfigService({}, tracepoints=TracepointConfigService())
+    rec = []
+    grpc = GRPCService(config)
+    grpc.channel = FakeChannel(rec)
+    handler = TaskHandler()
+    push = PushService(grpc, handler)
+    snaps = [rich_snapshot(sp) for sp in case['snaps']]
+    gate = GatedList(snaps[0].frames)
+    snaps[0]._frames = gate                      # snapshot A's conversion parks while it walks its own frames
+    notes = []
+    try:
+        push.push_snapshot(snaps[0])
+        if not gate.entered.wait(10):
+            notes.append('gate-not-reached')
+        for s in snaps[1:]:
+            push.push_snapshot(s)
+        deadline = time.time() + 10
+        while len(rec) < len(snaps) - 1 and time.time() < deadline:
+            time.sleep(0.002)
+        if len(rec) < len(snaps) - 1:
+            notes.append('other-uploads-not-sent-while-A-was-held')
+    finally:
+        gate.release.set()
+        handler.flush()
+    arrived = []
+    for r in rec:
+        try:
+            arrived.append(dump_msg(Snapshot.FromString(r['data'])))
+        except BaseException as e:  # noqa: B902
+            arrived.append({'unparsable': f'{type(e).__name__}: {e}'})
+    return {'sources': [dump_snapshot(s) for s in snaps], 'arrived': arrived, 'notes': notes}
+
+
 def run_impl(case):
     k = case['kind']
+    if k == 'uploads':
+        return run_uploads(case)
     if k == 'snapshot':
         return run_snapshot(case)
     if k == 'value':
@@ -744,6 +888,9 @@ def attr_values(case):
         vals += [v for _, v in case['attrs']] + [v for _, v in case['resource']]
     elif case['kind'] == 'value':
         vals.append(case['v'])
+    elif case['kind'] == 'uploads':
+        for sp in case['snaps']:
+            vals += [v for _, v in sp['attrs']] + [v for _, v in sp['resource']]
     else:
         vals += [v for _, v in case['resource']]
         for s in case['snaps']:
@@ -814,8 +961,26 @@ def expected_provider_failures(case):
     return out
 
 
+def oracle_uploads(case, obs):
+    v = []
+    arrived = [canon_msg(m) if 'unparsable' not in m else m for m in obs['arrived']]
+    for i, sd in enumerate(obs['sources']):
+        exp = expect_msg(sd)
+        mine = [m for m in arrived if m.get('ID') == exp['ID']]
+        if len(mine) != 1:
+            v.append(f'snapshot {i} (tp {sd["tracepoint"]["id"]}) arrived {len(mine)} times, pushed once '
+                     f'({len(arrived)} messages arrived for {len(obs["sources"])} uploads)')
+            continue
+        v += [f'snapshot {i}: ' + d for d in diff(mine[0], exp)[:3]]
+    if len(arrived) != len(obs['sources']) and not v:
+        v.append(f'{len(arrived)} messages arrived for {len(obs["sources"])} uploads')
+    return v[:6]
+
+
 def oracle(case, obs):
     k = case['kind']
+    if k == 'uploads':
+        return oracle_uploads(case, obs)
     v = []
     if k == 'snapshot':
         if not obs.get('collected'):
@@ -878,6 +1043,8 @@ def oracle(case, obs):
 
 def model_request(case, obs):
     k = case['kind']
+    if k == 'uploads':
+        return {'op': 'convert', 'snapshot': obs['sources'][0]}
     if k == 'snapshot':
         if not obs.get('collected') or 'raised' in obs:
             return None
@@ -908,6 +1075,11 @@ def compare(case, obs, resp):
     if 'error' in resp:
         return ['model error: ' + resp['error']]
     k = case['kind']
+    if k == 'uploads':
+        mine = [m for m in obs['arrived'] if resp['msg'] is not None and m.get('ID') == resp['msg']['ID']]
+        if len(mine) != 1:
+            return [f'model: snapshot 0 is sent once, implementation delivered it {len(mine)} times']
+        return diff(canon_msg(resp['msg']), canon_msg(mine[0]), 'model-vs-implementation')[:3]
     if k == 'snapshot':
         d = diff(canon_msg(resp['msg']), canon_msg(obs['msg']), 'model-vs-implementation')
         if not d and resp['msg'] is not None and not resp['reads_back']:
@@ -1009,9 +1181,11 @@ def gen_attr(rng, i):
         v = rng.random() < 0.5
     elif r < 0.60:
         v = rng.choice([0.5, -1.25, 1e300, {'float': 'nan'}, {'float': 'inf'}])
-    elif r < 0.67:
+    elif r < 0.64:
         v = {'bytes': [rng.randint(32, 126) for _ in range(rng.randint(0, 5))]}
-    elif r < 0.85:
+    elif r < 0.70:
+        v = {'sub': rng.choice(sorted(SUBCLASS_VALUES))}
+    elif r < 0.86:
         items = rng.choice([[gen_str(rng)[:10] for _ in range(rng.randint(0, 3))],
                             [rng.randint(-9, 9) for _ in range(rng.randint(1, 3))], [True, False], [0.5, 2.0], []])
         v = {'tuple': items} if rng.random() < 0.5 else list(items)
@@ -1157,6 +1331,18 @@ def gen_auth(rng, stream='main'):
     return case
 
 
+def gen_uploads(rng):
+    snaps = []
+    for i, tag in enumerate(rng.sample(['A', 'B', 'C', 'dé', 'E'], rng.choice([2, 2, 3]))):
+        snaps.append({'tag': tag, 'n_vars': rng.randint(1, 5), 'n_frames': rng.randint(0, 3),
+                      'ts': 1_700_000_000_000_000_000 + i, 'log': rng.choice([None, 'log of ' + tag]),
+                      'error_watch': rng.choice([None, 'boom ' + tag, '-']),
+                      'attrs': [['a_' + tag, rng.choice(['x', 5, True, ['p', 'q']])]] + (
+                          [gen_attr(rng, i)] if rng.random() < 0.5 else []),
+                      'resource': [['r_' + tag, 'res ' + tag]]})
+    return {'kind': 'uploads', 'stream': 'main', 'snaps': snaps}
+
+
 def clean(case):
     """main stream cases must not be instances of a known finding"""
     return not (inst_surrogate(case) or inst_big_int(case))
@@ -1178,7 +1364,8 @@ def gen(rng, tier):
             kind = rng.choice(['snapshot', 'snapshot', 'value', 'auth'])
             yield {'snapshot': gen_snapshot, 'value': gen_value, 'auth': gen_auth}[kind](rng, stream)
             continue
-        c = gen_snapshot(rng) if r < 0.66 else gen_value(rng) if r < 0.80 else gen_auth(rng)
+        c = gen_snapshot(rng) if r < 0.62 else gen_uploads(rng) if r < 0.66 else gen_value(rng) if r < 0.80 \
+            else gen_auth(rng)
         if clean(c):
             yield c
 
@@ -1197,11 +1384,21 @@ def corpus():
             'args': {'frame_type': 'all_frame', 'log_msg': 'v={v0} {nope}'}, 'watches': ['v0', '1/0'],
             'attrs': [['t', {'tuple': ['a', 'b']}], ['l', [1, 2]], ['b', True], ['f', 0.5]],
             'resource': [['service.name', 'svc'], ['tags', ['x', 'y']]]}
+    two = {'kind': 'uploads', 'stream': 'main', 'snaps': [
+        {'tag': 'A', 'n_vars': 3, 'n_frames': 1, 'ts': 1_700_000_000_000_000_000, 'log': 'log A', 'error_watch': None,
+         'attrs': [['a_A', ['p', 'q']]], 'resource': [['r_A', 'res A']]},
+        {'tag': 'B', 'n_vars': 5, 'n_frames': 2, 'ts': 1_700_000_000_000_000_001, 'log': None, 'error_watch': '-',
+         'attrs': [['a_B', {'sub': 'HTTPStatus.OK'}]], 'resource': [['r_B', {'sub': 'Color.RED'}]]}]}
     emptyerr = dict(base, names=['v0', 'mkjob'], nested=False, attrs=[], resource=[],
                     locals=[{'k': 'int', 'v': 3}, {'k': 'jobfactory', 'exc': 'CancelledError', 'msg': ''}],
                     args={'log_msg': 'job={mkjob()}'}, watches=['v0', 'mkjob()', '1/0'])
     return [
         base,
+        two,                                                                    # two uploads converting at once
+        dict(base, attrs=[['status', {'sub': 'HTTPStatus.NOT_FOUND'}], ['color', {'sub': 'Color.RED'}],
+                          ['ratio', {'sub': 'Ratio(0.25)'}]], resource=[['level', {'sub': 'Level.HIGH'}],
+                                                                        ['prio', {'sub': 'Prio.TOP'}]]),
+        {'kind': 'value', 'stream': 'main', 'v': {'sub': 'HTTPStatus.OK'}},
         emptyerr,                                                               # an error watch whose text is ''
         {'kind': 'auth', 'stream': 'main', 'cfg': {'provider': 'props.c08.ScriptedProvider', 'fail_first': 1,
                                                    'custom_md': [['authorization', 'Bearer s3cr3t'], ['x-tenant', 'acme']]},
@@ -1254,6 +1451,8 @@ def label(case, obs):
     k = case['kind']
     s = case.get('stream', 'main')
     pre = f'{k}/' + ('' if s == 'main' else 'seq-none/' if s == 'seq-none' else f'KNOWN:{s}/')
+    if k == 'uploads':
+        return pre + '%d-at-once' % len(case['snaps']) + ''.join('/' + n for n in obs.get('notes', []))
     if k == 'snapshot':
         if not obs.get('collected'):
             return pre + 'not-collected'
@@ -1275,6 +1474,8 @@ def nontrivial(case, obs):
     k = case['kind']
     if case.get('stream', 'main') not in ('main', 'seq-none'):
         return False
+    if k == 'uploads':
+        return not obs.get('notes')
     if k == 'snapshot':
         if not obs.get('collected') or not obs.get('msg'):
             return False
